@@ -8,9 +8,10 @@
 (*                 X.680 12.6 (exact: same length, kept characters         *)
 (*                 identical, all others blanks, new-lines in place)       *)
 (*   k = "text"    the same for a whole specification text, line by line;  *)
-(*                 also writes the model's comment-free text to OUT_FILE   *)
+(*                 also writes the model's comment-free text to            *)
+(*                 <TRACE_FILE>.blank                                      *)
 (*                 (the harness tokenizes *that*, it knows no comment rule)*)
-(*   k = "layout"  a window of a text re-laid out by a Layout schedule:    *)
+(*   k = "layout"  a window of a text re-laid out by Layout schedules:      *)
 (*                 same token sequence (re-established here with XLex on   *)
 (*                 both texts) => same parse result / same acceptance      *)
 (*   k = "errline" a syntax error injected at a token: the line reported   *)
@@ -110,28 +111,53 @@ BlankRecord(L, std) == [tid |-> L.tid, blank |-> std.out, ok |-> Final(std.st, {
 ------------------------------------------------------------------------------
 (* k = "layout"                                                             *)
 
+\* A line holds one window of a text (tokens L.toks, original text L.worig, outcome L.o0 of parsing the
+\* original text) and several re-laid-out versions c of it (changes c.ch in ascending boundary order,
+\* window text c.wnew, outcome c.o1, c.same: the two dictionaries are equal).
 Accepted(o) == o.st = "ok"
-SameOutcome(L) ==
-  \/ Accepted(L.o0) /\ Accepted(L.o1) /\ L.same
-  \/ L.o0.st = "exc" /\ L.o1.st = "exc" /\ L.o0.cls = L.o1.cls
+SameOutcome(o0, c) ==
+  \/ Accepted(o0) /\ Accepted(c.o1) /\ c.same
+  \/ o0.st = "exc" /\ c.o1.st = "exc" /\ o0.cls = c.o1.cls
 
 Outcome(o) ==
   IF o.st = "ok" THEN "accepted"
   ELSE IF o.st = "exc" THEN o.cls \o ": " \o Prefix(o.msg, 110)
   ELSE o.st
 
-LayoutVerdict(L) ==
+LayoutVerdicts(L) ==
   LET co == Explode(L.worig)
-      cn == Explode(L.wnew)
-  IN IF XLex(co) # L.toks THEN V(1, "layout", "LAYOUT", "machinery", "harness tokens of the original differ from XLex in " \o L.wid)
-     ELSE IF XLex(cn) # L.toks THEN V(1, "layout", "LAYOUT", "machinery", "the re-laid-out window has other tokens (XLex) in " \o L.wid)
-     ELSE IF SameOutcome(L) THEN V(1, "layout", "LAYOUT", "ok", "")
-     ELSE LET hit == SelectSeq(LayoutDevSets, LAMBDA S : ImplView(co, S) # ImplView(cn, S)) IN
-          IF hit # <<>> THEN V(1, "layout", "LAYOUT", "dev", ToString(hit[1]))
-          ELSE V(1, "layout", "LAYOUT", "reject",
-                 "same token sequence, other result: original " \o Outcome(L.o0) \o " | re-laid-out " \o
-                 (IF Accepted(L.o0) /\ Accepted(L.o1) THEN "accepted with another dictionary" ELSE Outcome(L.o1)) \o
-                 " | changes " \o ToString(L.ch))
+      items == XLexItems(BlankOf(co, {}))          \* the items of the original window, once per line
+      tokOK == Toks(items) = L.toks
+      \* The new window differs from the original only between the first and the last changed boundary:
+      \* it must be  original up to token i1 | new middle | original from the end of token i2+1,  and the
+      \* middle (token i1 .. token i2+1 with the new fillers) must have exactly these items.
+      SameTokens(c) ==
+        LET i1 == c.ch[1][1]
+            i2 == c.ch[Len(c.ch)][1]
+            preLen == items[i1].a - 1
+            postLen == Len(L.worig) - items[i2 + 1].z
+            midLen == Len(c.wnew) - preLen - postLen
+        IN /\ i1 >= 1 /\ i1 <= i2 /\ i2 < Len(items) /\ midLen >= 0
+           /\ SubSeq(c.wnew, 1, preLen) = SubSeq(L.worig, 1, preLen)
+           /\ SubSeq(c.wnew, preLen + midLen + 1, Len(c.wnew)) = SubSeq(L.worig, items[i2 + 1].z + 1, Len(L.worig))
+           /\ XLex(Explode(SubSeq(c.wnew, preLen + 1, preLen + midLen))) = SubSeq(L.toks, i1, i2 + 1)
+      One(vi, c) ==
+        IF ~tokOK THEN V(vi, "layout", "LAYOUT", "machinery", "harness tokens of the original differ from XLex in " \o L.wid)
+        ELSE IF ~SameTokens(c) THEN V(vi, "layout", "LAYOUT", "machinery", "the re-laid-out window has other tokens (XLex) in " \o L.wid)
+        ELSE IF SameOutcome(L.o0, c) THEN V(vi, "layout", "LAYOUT", "ok", "")
+        ELSE LET cn == Explode(c.wnew)
+                 RECURSIVE FirstExplaining(_)
+                 FirstExplaining(q) ==
+                   IF q > Len(LayoutDevSets) THEN 0
+                   ELSE IF ImplView(co, LayoutDevSets[q]) # ImplView(cn, LayoutDevSets[q]) THEN q
+                   ELSE FirstExplaining(q + 1)
+                 q == FirstExplaining(1)
+             IN IF q > 0 THEN V(vi, "layout", "LAYOUT", "dev", ToString(LayoutDevSets[q]))
+                ELSE V(vi, "layout", "LAYOUT", "reject",
+                       "same token sequence, other result: original " \o Outcome(L.o0) \o " | re-laid-out " \o
+                       (IF Accepted(L.o0) /\ Accepted(c.o1) THEN "accepted with another dictionary" ELSE Outcome(c.o1)) \o
+                       " | changes " \o ToString(c.ch))
+  IN [j \in 1..Len(L.cases) |-> One(j, L.cases[j])]
 
 ------------------------------------------------------------------------------
 (* k = "errline"                                                            *)
@@ -147,7 +173,8 @@ ErrVerdict(L) ==
            j == TokenAt(PositionsAfter(L.lead0, L.toks, L.f0, {}), L.l0.line, L.l0.col)
            LineIn(D) == LET pos == PositionsAfter(L.lead1, L.toks, L.f1, D)
                         IN IF j <= n THEN pos[j].line ELSE pos[n].line + CountNL(BlankOf(CharsOf(L.trail1), D))
-       IN IF j <= 0 THEN V(1, "errline", "ERRLINE", "skip", "the parser's error position is not on a token")
+       IN IF j <= 0 \/ (j > n /\ ~L.attail)
+          THEN V(1, "errline", "ERRLINE", "skip", "the parser's error position is not on a token of the window")
           ELSE IF L.l1.line = LineIn({}) THEN V(1, "errline", "ERRLINE", "ok", "")
           ELSE IF L.l1.line = LineIn({DevBlockCommentNewlinesBlanked})
                THEN V(1, "errline", "ERRLINE", "dev", ToString({DevBlockCommentNewlinesBlanked}))
@@ -160,7 +187,7 @@ ErrVerdict(L) ==
 Verdicts(L, std) ==
   CASE L.k = "mask" -> MaskVerdicts(L)
     [] L.k = "text" -> <<TextVerdict(L, std)>>
-    [] L.k = "layout" -> <<LayoutVerdict(L)>>
+    [] L.k = "layout" -> LayoutVerdicts(L)
     [] L.k = "errline" -> <<ErrVerdict(L)>>
 
 LineReport(L, std) ==
@@ -177,7 +204,7 @@ Init == i = 1 /\ ScannerIdle /\ LayoutIdle
 Next == /\ i <= Len(Tr)
         /\ LET std == IF Tr[i].k = "text" THEN ScanLines(Tr[i].lines, {}) ELSE [st |-> Scan0, out |-> <<>>] IN
              /\ Append2(IOEnv.VERDICT_FILE, LineReport(Tr[i], std))
-             /\ Tr[i].k = "text" => Append2(IOEnv.OUT_FILE, BlankRecord(Tr[i], std))
+             /\ Tr[i].k = "text" => Append2(IOEnv.TRACE_FILE \o ".blank", BlankRecord(Tr[i], std))
         /\ i' = i + 1
         /\ ScannerStays /\ LayoutStays
 Spec == Init /\ [][Next]_<<i, scanVars, layVars>>
